@@ -64,7 +64,15 @@ void MD_Channel::update(int seq_ticks)
 	}
 
 	v_update_envelope();
-	update_pitch();
+	try
+	{
+		update_pitch();
+	}
+	catch(std::out_of_range&)
+	{
+		// a loop mark with no node after it, or a jump past the last node
+		error("Pitch envelope has no node at its loop position");
+	}
 
 	if(pitch != last_pitch)
 		set_pitch();
